@@ -528,8 +528,8 @@ PROPS = {
     },
     "C03": {
         "lean_modules": ["Dbg.Props.C03"],
-        "theorems": ["Graph.C03_edges_symmetric", "Graph.C03_ginv_decidable", "Graph.C03_prune_exact", "Graph.C03_valid_exts_exact", "Graph.C03_edges_justified", "Graph.C03_walk_sequence", "Graph.C03_maxPath_walk", "Graph.C03_maxPath_sequence", "Graph.edge_overlap", "Graph.findLink_sound", "Graph.searchKmer_sound", "Graph.searchKmer_complete", "Graph.findLink_exts_irrelevant"],
-        "partial": ["GInv (node-level invariant: unique ends, reciprocal extensions) is a hypothesis of C03_edges_symmetric: it is decidable (ginvOK, proved sound) and evaluated on every graph the crate builds in the pipeline requests, but not yet derived from C01/C02 for the output of compress_kmers; adjacency set = (K+1)-mers of the reads (edges_eq_observed) is an executable predicate; max_path_beam is not modelled"],
+        "theorems": ["Graph.C03_ginv_of_compress", "Graph.C03_edges_symmetric_from_reads", "Graph.C03_edges_symmetric", "Graph.C03_ginv_decidable", "Graph.C03_prune_exact", "Graph.C03_valid_exts_exact", "Graph.C03_edges_justified", "Graph.C03_walk_sequence", "Graph.C03_maxPath_walk", "Graph.C03_maxPath_sequence", "Graph.edge_overlap", "Graph.findLink_sound", "Graph.searchKmer_sound", "Graph.searchKmer_complete", "Graph.findLink_exts_irrelevant"],
+        "partial": ["adjacency set = (K+1)-mers of the reads (edges_eq_observed) is an executable predicate on pipeline graphs; GInv is proved for the output of compress_kmers (C03_ginv_of_compress) but not yet for graphs after compress_graph / fix_exts with censoring (evaluated executably there); max_path_beam is not modelled"],
         "n_quick": 3000, "n_thorough": 200000,
         "nontrivial": lambda toks, impl: impl != "panic" and (toks[1] != "graph" or toks[4].count(",") >= 1), "tags": _c03_tags,
         "rule": "requests: `graph K stranded nodes probes valid scores walk` on graphs produced by the real pipeline (filter -> prune -> compress -> "
